@@ -329,29 +329,31 @@ func vpC08GenMultipartBody(t *rapid.T) ([]byte, int, string) {
 	}
 	b.WriteString(vpC08PickV(t, "close", clean, 3, "--xyz--\r\n", "--xyz--", "--xyz--\r\nepilogue", "--xyz-\r\n", ""))
 	in, origin := vpC08Finish(t, b.String(), 200)
-	// aux: low 2 bits select content-type / encoding variant, the rest is the limit
-	variant := rapid.SampledFrom([]int{0, 0, 0, 0, 1, 2, 3}).Draw(t, "mpvariant")
+	// aux: low 4 bits select content-type / encoding variant, the rest is the limit
+	variant := rapid.SampledFrom([]int{0, 0, 0, 0, 1, 2, 3, 4, 5, 6, 7, 8, 9, 10, 11, 12, 13, 14, 15}).Draw(t, "mpvariant")
 	limit := rapid.SampledFrom([]int{1 << 20, 1 << 20, 1 << 20, len(in) + 1, len(in), len(in) - 1, 64, 1}).Draw(t, "mplimit")
 	if limit < 1 {
 		limit = 1
 	}
-	return in, limit<<2 | variant, origin
+	return in, limit<<4 | variant, origin
+}
+
+// Content-Type values for the multipart helper: the boundary parameter well-formed, quoted, half-quoted, empty, absent
+var vpC08MPContentTypes = []string{
+	0: "multipart/form-data; boundary=xyz", 1: "multipart/form-data; charset=utf-8; boundary=\"xyz\"", 2: "multipart/form-data; boundary=xyz",
+	3: "multipart/form-data; boundary=", 4: "multipart/form-data; boundary=\"", 5: "multipart/form-data; boundary=\";",
+	6: "multipart/form-data; boundary=\"; foo=bar", 7: "multipart/form-data; boundary=\"\"", 8: "multipart/form-data; boundary=\"xyz",
+	9: "multipart/form-data; boundary=xyz\"", 10: "multipart/form-data", 11: "multipart/form-data; boundary=\"x\\\"yz\"",
+	12: "multipart/form-data; boundary=  xyz", 13: "multipart/form-data; BOUNDARY=xyz", 14: "multipart/form-data;boundary=xyz;", 15: "multipart/form-data; charset=\"; boundary=xyz",
 }
 
 func vpC08RunMultipart(in []byte, aux int) (string, bool) {
-	variant, limit := aux&3, aux>>2
+	variant, limit := aux&15, aux>>4
 	if limit < 1 {
 		limit = 1
 	}
 	var req Request
-	switch variant {
-	case 1:
-		req.Header.SetContentType("multipart/form-data; charset=utf-8; boundary=\"xyz\"")
-	case 3:
-		req.Header.SetContentType("multipart/form-data; boundary=")
-	default:
-		req.Header.SetContentType("multipart/form-data; boundary=xyz")
-	}
+	req.Header.SetContentType(vpC08MPContentTypes[variant])
 	body := in
 	if variant == 2 {
 		var zb bytes.Buffer
